@@ -1,6 +1,8 @@
 import WS.Lemmas.HttpLogic
 import WS.Gen.Skeletons
 import WS.Gen.Tables
+import WS.Lemmas.Robust
+import WS.Lemmas.RequestLogic
 /-
   C12 — Server handshake: upgrade iff the request is a valid opening handshake; correct 101.
 -/
@@ -74,5 +76,33 @@ theorem upgrade_chain_as_modelled :
        "!checkOrigin(r) => http.StatusForbidden",
        "!isValidChallengeKey(challengeKey) => http.StatusBadRequest",
        "err != nil => http.StatusInternalServerError"] := by decide +kernel
+
+open WS.Robust
+/-- contains_sound (arbitrary byte strings): if the list scanner says a header line contains the
+    token, then some comma-separated element of the line, trimmed of SP/HT, is a token that equals it
+    under ASCII folding — "websockets" or "xupgrade" can never pass -/
+theorem contains_sound (s v : Bytes) (h : lineContains s v = true) :
+    ∃ e ∈ elements s, e ≠ [] ∧ (∀ b ∈ e, isTokenOctet b = true) ∧ equalASCIIFold e v = true := by
+  first | exact Robust.contains_sound .. | (apply Robust.contains_sound <;> assumption)
+
+/-- contains_complete (well-formed 1#token lists): the scanner finds the token whenever an element
+    equals it -/
+theorem contains_complete (s v : Bytes)
+    (hwf : ∀ e ∈ elements s, e ≠ [] ∧ ∀ b ∈ e, isTokenOctet b = true)
+    (h : ∃ e ∈ elements s, equalASCIIFold e v = true) :
+    lineContains s v = true := by
+  first | exact Robust.contains_complete .. | (apply Robust.contains_complete <;> assumption)
+
+/-- the exact lines of the 101 response (no application response header): status line, Upgrade,
+    Connection, Accept, optional scrubbed subprotocol, optional extension announcement -/
+theorem response101_lines (accept sub : Bytes) (compress : Bool)
+    (ha : ∀ b ∈ accept, b ≠ 13) :
+    splitCRLF (response101 accept sub compress none) [] =
+      [strBytes "HTTP/1.1 101 Switching Protocols", strBytes "Upgrade: websocket", strBytes "Connection: Upgrade",
+       strBytes "Sec-WebSocket-Accept: " ++ accept] ++
+      (if sub.isEmpty then [] else [strBytes "Sec-WebSocket-Protocol: " ++ scrub sub]) ++
+      (if compress then [strBytes "Sec-WebSocket-Extensions: permessage-deflate; server_no_context_takeover; client_no_context_takeover"] else []) ++
+      [[], []] := by
+  first | exact RequestLogic.response101_lines .. | (apply RequestLogic.response101_lines <;> assumption)
 
 end WS.Props.C12
